@@ -10,8 +10,7 @@ commands translated by hand (CollectionsScripts.v).  coq/generated/GenCollection
 table of names, aliases, argument counts and helper calls read from the source; C12_tables ties it to the model.
 
 Correspondence: histories of collection commands are run (a) by the extracted model — M for the native
-commands, the hand translation (CollectionsScripts.v) for eight of the nine script commands, the S-level
-definition for array_join, `array_concat` in its as-is form (finding F6) — and (b) by the real SDK in one persistent
+commands, the hand translations (CollectionsScripts.v, CollectionsJoin.v) for the nine script commands, `array_concat` in its as-is form (finding F6) — and (b) by the real SDK in one persistent
 Context per history (harness c12: one-line scripts, arguments passed through variables).  After every op the
 outputs are compared; at `dump` ops every collection allocated so far is re-read through the public commands
 (is_array/array_length/array_get, is_map/map_keys/map_get, is_set/set_to_array) and compared together with the
@@ -24,8 +23,10 @@ Known findings tolerated (exactly these classes):
       differs from the specification; theorem C12_F6_confined: no difference unless an earlier call failed).
       The implementation must still agree with concat_asis.
   F7  array_join leaves a trailing separator when the separator, re-serialised for `if not is_empty <sep>`,
-      does not parse back to itself (it contains # $ % or white space other than the space character): the
-      output may be <joined> or <joined><sep>.  Arguments of script commands that reach `if not <command> ${arg}`
+      does not re-bind to itself (classes of C09: # without a space, ${x} / %{x}, CR / LF, trailing white
+      space, a leading quote ...).  The model runs the translated script (CollectionsJoin.v, no variable
+      defined) and predicts this; the implementation may answer the model's text, <joined> or <joined><sep>,
+      and for a separator =word (class E) an error.  Arguments of script commands that reach `if not <command> ${arg}`
       and contain # $ % " \ = or such white space are outside the compared domain (C09's finding F7): only
       "an error or false" is required and the rest of that history is not compared.
 """
@@ -35,7 +36,8 @@ from vlib import enc_str, dec_str, enc_list, dec_list
 
 THEOREMS = ["C12_tables", "C12_short_args", "C12_refines", "C12_refines_run", "C12_refines_script",
             "C12_refines_array_contains", "C12_refines_set_from_array", "C12_refines_array_concat",
-            "C12_refines_map_contains_value", "C12_no_empty_handle", "C12_refines_run_proved", "C12_nopanic", "C12_mismatch", "C12_mismatch_native", "C12_mismatch_release",
+            "C12_refines_map_contains_value", "C12_refines_array_join", "C12_array_join_F7_refuted",
+            "C12_array_join_example", "C12_no_empty_handle", "C12_refines_run_proved", "C12_nopanic", "C12_mismatch", "C12_mismatch_native", "C12_mismatch_release",
             "C12_mismatch_concat", "C12_release_total", "C12_release", "C12_release_cyclic", "C12_distinct", "C12_frame",
             "C12_verbatim_array", "C12_verbatim_map", "C12_verbatim_set", "C12_parse_dec", "C12_verbatim_array_dec",
             "C12_keys_perm", "C12_members_perm", "C12_array_contains_least", "C12_array_contains_none",
@@ -66,7 +68,8 @@ INDEXES = ["0", "1", "2", "3", "4", "5", "6", "7", "10", "149", "150", "255", "2
 RANGE_ARGS = ["0", "1", "2", "3", "5", "-2", "-1", "+3", "10", "abc", "", "1.5", "9223372036854775807",
               "9223372036854775808", "-9223372036854775808", "-9223372036854775809", " 1", "03"]
 SAFE_SEPS = [",", "", ", ", "ab", "é", "--", "::", " ", "\"", "\\", "a b", "日", "'"]
-K7_SEPS = ["#", "\t", "${x}", "%{x}", "\n", "#x", "\r", "$", "%", "a#", " "]
+K7_SEPS = ["#", "\t", "${x}", "%{x}", "\n", "#x", "\r", "$", "%", "a#", "\u2028", "\" x", "a\" b", "\"a\"", "\\$", "x\\",
+           "%a b", "=", "=x", "a\t", "# x", "a\rb", "\"\"", "${__a1}", "\\${x}", " \t", "a %b c", "\xa0"]
 
 
 def source_aliases():
@@ -324,12 +327,19 @@ def canon_str(s, names):
 
 
 def canon_side(ops, fields):
-    """-> (list of canonical per-op results, list of raw decoded output values or None)"""
+    """-> (canonical per-op results, raw decoded output values or None, names known at each step,
+           canonical specification answer of the steps the model flags with ~)"""
     names = []     # (step, name), latest first
-    res, raw = [], []
+    res, raw, names_at, spec = [], [], [], {}
     for k, (op, f) in enumerate(zip(ops, fields)):
         name = cname(op)
+        flag = f.split("~")[1] if "~" in f else None
         f = f.split("~")[0]
+        names_at.append(list(names))
+        if flag is not None and flag.startswith("V"):
+            spec[k] = ("V", canon_str(dec_str(flag[1:]), names))
+        elif flag is not None:
+            spec[k] = (flag, None)
         if f.startswith("V"):
             v = dec_str(f[1:])
             raw.append(v)
@@ -352,7 +362,7 @@ def canon_side(ops, fields):
         else:
             raw.append(None)
             res.append((f, None))
-    return res, raw
+    return res, raw, names_at, spec
 
 
 def resolve_args(op, raw):
@@ -373,13 +383,13 @@ def compare_history(ops, mfields, ifields):
     notes = set()
     if len(mfields) != len(ops) or len(ifields) != len(ops):
         return "diff", -1, "field count: model %d impl %d ops %d" % (len(mfields), len(ifields), len(ops)), notes
-    cm, rawm = canon_side(ops, mfields)
-    ci, rawi = canon_side(ops, ifields)
+    cm, rawm, names_m, spec_m = canon_side(ops, mfields)
+    ci, rawi, _, _ = canon_side(ops, ifields)
     for k, op in enumerate(ops):
         name = cname(op)
-        if "~" in mfields[k]:
-            if name != "array_concat":
-                return "diff", k, "model and specification differ on a command other than array_concat", notes
+        if "~" in mfields[k] and name not in ("array_concat", "array_join"):
+            return "diff", k, "model and specification differ on a command other than array_concat / array_join", notes
+        if "~" in mfields[k] and name == "array_concat":
             if cm[k] != ci[k]:
                 ideal = mfields[k].split("~")[1]
                 same_as_spec = ((ideal == "H" and ci[k][0] == "V" and ci[k][1] == "⟨%d⟩" % k) or
@@ -395,16 +405,33 @@ def compare_history(ops, mfields, ifields):
             args = resolve_args(op, rawm)
             pos = EXPOSED.get(name, ())
             exposed = args if pos is None else [args[p] for p in pos if p < len(args)]
-            if name == "array_join" and len(args) >= 2 and not (set(args[0]) & UNSAFE) and (set(args[1]) & K7):
-                # F7: <joined> or <joined><sep>
+            if name == "array_join" and len(args) >= 2 and not (set(args[0]) & UNSAFE):
+                # F7.  The model runs the translated script (CollectionsJoin.v) with no variable defined and marks the
+                # step ~ when that differs from the specification.  Same answer: fine.  Otherwise, for a separator
+                # with a character that re-serialisation may treat specially (the real variables may matter, e.g.
+                # ${__a1}): the joined text, with or without one trailing separator.
+                flagged = "~" in mfields[k]
                 if cm[k] == ci[k]:
+                    if flagged:
+                        notes.add("F7")
                     continue
-                if cm[k][0] == "V" and ci[k][0] == "V" and ci[k][1] == cm[k][1] + canon_str(args[1], []):
-                    notes.add("F7")
-                    continue
-                return "diff", k, "array_join with an F7 separator: neither joined nor joined+separator", notes
-            if name == "array_join" and len(exposed) == 2 and exposed[1] in ('"', "\\"):
-                exposed = exposed[:1]          # these two separators were verified to survive re-serialisation
+                if flagged or (set(args[1]) & UNSAFE):
+                    ideal = spec_m[k] if flagged else cm[k]
+                    if ideal[0] == "V" and ci[k][0] == "V":
+                        raw_ideal = dec_str(mfields[k].split("~")[1][1:]) if flagged else rawm[k]
+                        trailing = canon_str(raw_ideal + args[1], names_m[k])
+                        if ci[k][1] == ideal[1]:
+                            continue
+                        if ci[k][1] == trailing:
+                            notes.add("F7")
+                            continue
+                    if args[1].startswith("=") and " " not in args[1] and ci[k][0].startswith("EX"):
+                        # class E of F7: `is_empty =x` is read as an assignment to the variable is_empty of the
+                        # result of command x; array_join reports that error instead of joining
+                        notes.add("F7")
+                        continue
+                    return "diff", k, "array_join: neither the model's answer, nor joined, nor joined+separator: %r / %r" % (cm[k], ci[k]), notes
+                exposed = exposed[:1]
             if any(set(x) & UNSAFE for x in exposed):
                 # the argument is re-serialised by `if not <command> ${arg}`: only "error or false" is required,
                 # and the rest of the history is not compared (the as-is bookkeeping of F6 may be off)
@@ -443,7 +470,8 @@ def confusion_ops(t):
             "set_from_array %s" % t, "set_is_empty %s" % t]
 
 
-OWN_FILES = ["coq/theories/Collections.v", "coq/theories/CollectionsSpec.v", "coq/theories/CollectionsProof.v",
+OWN_FILES = ["coq/theories/CollectionsJoin.v", "coq/theories/CollectionsJoinStr.v", "coq/theories/CollectionsJoinProof.v",
+             "coq/theories/Collections.v", "coq/theories/CollectionsSpec.v", "coq/theories/CollectionsProof.v",
              "coq/theories/CollectionsScripts.v", "coq/theories/CollectionsTables.v", "coq/generated/GenCollections.v",
              "coq/props/C12.v", "coq/extract/C12_extract.v"]
 
@@ -496,8 +524,8 @@ def replay(ck, data):
     ops = wire.split("\t")[1:]
     m = ck.model([wire])[0].split("\t")
     i = ck.impl([wire])[0].split("\t")
-    cm, _ = canon_side(ops, m) if len(m) == len(ops) else ([], [])
-    ci, _ = canon_side(ops, i) if len(i) == len(ops) else ([], [])
+    cm = canon_side(ops, m)[0] if len(m) == len(ops) else []
+    ci = canon_side(ops, i)[0] if len(i) == len(ops) else []
     for k, o in enumerate(ops):
         print("%3d %-50s model %-30s implementation %s" % (k, show_op(o)[:50], (cm[k:k + 1] or ["?"])[0], (ci[k:k + 1] or ["?"])[0]))
     status, step, detail, notes = compare_history(ops, m, i)
@@ -670,10 +698,11 @@ def run(ck):
             "status": stats,
             "samples": [[show_op(o) for o in hist[0][1]], [show_op(o) for o in hist[min(n_corpus + 5, len(hist) - 1)][1]],
                         [show_op(o) for o in hist[-1][1][:12]]],
-            "partial": "array_join (script-implemented, builds its result with strlen / calc / substring) has a specification-level "
-                       "definition only and is tied to the code by this run, not by a refinement proof; the other eight script "
-                       "commands are hand-translated compositions of the native models (for-in as repeated re-reading of the live "
-                       "list), proved against the specification; the for-in call stack (F6) and eval re-serialisation (F7) are not modelled",
+            "partial": "all nine script-implemented commands are hand-translated compositions of the native models (for-in as "
+                       "repeated re-reading of the live list; array_join with the C09 model of eval re-serialisation and the C16 "
+                       "models of strlen / calc / substring), proved against the specification; array_join only for arguments "
+                       "outside the F7 classes (C12_array_join_F7_refuted for the rest); the for-in call stack (F6) is not modelled: "
+                       "array_concat's as-is definition carries the resume index instead",
         })
     else:
         ck.coverage.update({"evaluations": 0, "distinct_nontrivial": 0, "rule": "model did not build", "samples": []})
